@@ -83,6 +83,9 @@ fn main() {
             if let Some(path) = replay {
                 std::process::exit(supervisor::replay_file(std::path::Path::new(&path)));
             }
+            if id == "selftest" {
+                std::process::exit(supervisor::selftest(tier, seed));
+            }
             std::process::exit(supervisor::check(id, tier, seed));
         }
         _ => usage(),
